@@ -388,11 +388,11 @@ def d7_type_fs(ctx):
 
 
 def run(ctx):
-    d1_sync_gain(ctx)
-    d2_ap_lf(ctx)
-    d3_reader_writer(ctx)
+    ctx.run(d1_sync_gain)
+    ctx.run(d2_ap_lf)
+    ctx.run(d3_reader_writer)
     from rules import C08
-    C08.d4_version_tables(ctx, rule_id="D4")
-    d5_maxint(ctx)
-    d6_sync_indices(ctx)
-    d7_type_fs(ctx)
+    ctx.run(C08.d4_version_tables, rule_id="D4")
+    ctx.run(d5_maxint)
+    ctx.run(d6_sync_indices)
+    ctx.run(d7_type_fs)
